@@ -8,10 +8,10 @@ git checkout -q -- .
 /venv/bin/python seeded_out/demo$i.py >/tmp/sv2_${tag}_demo_clean.txt 2>&1; d0=$?
 git apply seeded_out/change$i.diff || { echo "patch does not apply"; exit 3; }
 /venv/bin/python seeded_out/demo$i.py >/tmp/sv2_${tag}_demo_patched.txt 2>&1; d1=$?
-/venv/bin/python -m pytest -q -p no:cacheprovider --timeout=900 --continue-on-collection-errors --junitxml=/tmp/sv2_${tag}_junit.xml >/dev/null 2>&1
-/venv/bin/python /verif/tools/baseline_compare.py /tmp/sv2_${tag}_junit.xml >/tmp/sv2_${tag}_suite.txt 2>&1; s1=$?
+TMPDIR=$wt/.sv2tmp; export TMPDIR; mkdir -p $TMPDIR; /venv/bin/python -m pytest -q -p no:cacheprovider --timeout=900 --continue-on-collection-errors --junitxml=/tmp/sv2_${tag}_junit.xml >/dev/null 2>&1
+/venv/bin/python /verif/tools/baseline_compare.py /tmp/sv2_${tag}_junit.xml >/tmp/sv2_${tag}_suite.txt 2>&1; s1=$?; unset TMPDIR
 cd /verif && VERIF_REPO=$wt ./check $prop --tier quick --budget $budget --evidence-dir /tmp/esrally-verif-dev-evidence-$tag > /tmp/sv2_${tag}_check.txt 2>&1; c1=$?
-git -C $wt checkout -q -- .
+git -C $wt checkout -q -- .; rm -rf $wt/.sv2tmp
 echo "prop=$prop change=$i wt=$wt demo_clean=$d0 demo_patched=$d1 suite_patched=$s1 ($(head -1 /tmp/sv2_${tag}_suite.txt)) check_exit=$c1"
 grep -A1 'oracle=' /tmp/sv2_${tag}_check.txt | grep -v '^--' | cut -c1-400 | head -6
 rm -rf /tmp/esrally-verif-dev-evidence-$tag /tmp/sv2_${tag}_junit.xml
